@@ -381,7 +381,10 @@ func c11RecursiveCases() []*c11Case {
 	}
 	alias = append(alias,
 		&c11Case{name: "loop-file-named-workflow", main: "w.yaml", files: map[string][]byte{"w.yaml": []byte(loop("workflow")), "workflow": []byte(subProg().YAML())}},
-		&c11Case{name: "loop-file-named-workflow-missing", main: "w.yaml", files: map[string][]byte{"w.yaml": []byte(loop("workflow"))}})
+		&c11Case{name: "loop-file-named-workflow-missing", main: "w.yaml", files: map[string][]byte{"w.yaml": []byte(loop("workflow"))}},
+		// the same collision one and two levels down
+		&c11Case{name: "nested-loop-file-named-workflow", main: "w.yaml", files: map[string][]byte{"w.yaml": []byte(loop("a.yaml")), "a.yaml": []byte(loop("workflow")), "workflow": []byte(subProg().YAML())}},
+		&c11Case{name: "nested2-loop-file-named-workflow", main: "w.yaml", files: map[string][]byte{"w.yaml": []byte(loop("a.yaml")), "a.yaml": []byte(loop("b.yaml")), "b.yaml": []byte(loop("workflow")), "workflow": []byte(subProg().YAML())}})
 	return append(alias, []*c11Case{
 		{name: "self-reference", main: "w.yaml", files: map[string][]byte{"w.yaml": []byte(loop("w.yaml"))}},
 		{name: "two-cycle", main: "w.yaml", files: map[string][]byte{"w.yaml": []byte(loop("a.yaml")), "a.yaml": []byte(loop("w.yaml"))}},
